@@ -166,6 +166,57 @@ def serStack (mk : Bits → List R → Option R) (vs : List (Val R)) : Option (B
 /-- API level: `VmStack.serialize(data)` returns the cell -/
 def serialize (mk : Bits → List R → Option R) (vs : List (Val R)) : Option R := (serStack mk vs).map (·.cell)
 
+/-! ### what a successful `serialize` leaves in the caller's objects
+
+Python values are mutable objects: `VmTuple.list`, the `data` list, the lists inside control data.  `post*`
+is the state of the caller's value after a call that returned normally.  `pop = true` is the code before fix
+F20 (`VmTuple.serialize` did `values.pop()` on the caller's tuple and handed the same object on to
+`VmTupleRef.serialize`); `pop = false` is the current code (`VmTuple(values.list[:-1])`, a new list object
+holding the same element objects, so only what happens *inside* the elements is visible to the caller).
+`VmStack.serialize` works on `data.copy()`, so the outer list keeps its length either way.  Slices, builders
+and cells are only read (`store_slice`, `end_cell`, `store_ref`). -/
+
+mutual
+/-- state of `value` after `VmStackValue.serialize(value)` -/
+def postVal (pop : Bool) : Val R → Val R
+  | .tuple vs => .tuple (postTuple pop vs)
+  | .cont k => .cont (postCont pop k)
+  | v => v
+/-- state of `values.list` (last-first) after `VmTuple.serialize(values)` -/
+def postTuple (pop : Bool) : List (Val R) → List (Val R)
+  | [] => []
+  | v :: rest => if pop then postTupleRef pop rest          -- `values.pop()`, then VmTupleRef.serialize(values) on the same object
+                 else postVal pop v :: postTupleRef pop rest
+/-- state of `values.list` after `VmTupleRef.serialize(values)` -/
+def postTupleRef (pop : Bool) : List (Val R) → List (Val R)
+  | [] => []
+  | [v] => [postVal pop v]                                  -- `values[0]` is serialised in place
+  | v :: w :: rest => if pop then postTupleRef pop (w :: rest)   -- = VmTuple.serialize(values): pops `v`
+                      else postVal pop v :: postTupleRef pop (w :: rest)
+/-- state of the elements of a list handed to `VmStack.serialize` (which pops from a copy) -/
+def postList (pop : Bool) : List (Val R) → List (Val R)
+  | [] => []
+  | v :: rest => postVal pop v :: postList pop rest
+def postCont (pop : Bool) : Cont R → Cont R
+  | .std cd cb cr => .std (postCtl pop cd) cb cr
+  | .envelope cd next => .envelope (postCtl pop cd) (postCont pop next)
+  | .quit c => .quit c
+  | .quitExc => .quitExc
+  | .repeat_ c b a => .repeat_ c (postCont pop b) (postCont pop a)
+  | .until_ b a => .until_ (postCont pop b) (postCont pop a)
+  | .again b => .again (postCont pop b)
+  | .whileCond c b a => .whileCond (postCont pop c) (postCont pop b) (postCont pop a)
+  | .whileBody c b a => .whileBody (postCont pop c) (postCont pop b) (postCont pop a)
+  | .pushint v n => .pushint v (postCont pop n)
+def postCtl (pop : Bool) : Ctl R → Ctl R
+  | .mk nargs none save cp => .mk nargs none save cp
+  | .mk nargs (some st) save cp => .mk nargs (some (postList pop st)) save cp
+end
+
+/-- `VmStack.serialize(data)` as a state transformer on the caller's values: (returned cell, `data` afterwards) -/
+def serializeSt (pop : Bool) (mk : Bits → List R → Option R) (vs : List (Val R)) : Option R × List (Val R) :=
+  (serialize mk vs, postList pop vs)
+
 /-! ### deserialize -/
 
 namespace De
